@@ -57,6 +57,31 @@ def run_model(work, pid, tier, seed):
     return st, gen, detail, sims
 
 
+REQUIRED = ['SendTx', 'SendReturn', 'Unlock', 'SrvTake', 'SrvPush', 'SrvBusyWait', 'SrvBusyAcquire', 'SrvLostAcquire', 'WorkerLock', 'WorkerTx',
+            'SrvExit', 'ParkReach', 'AppRecvRet']
+COV_RE = re.compile(r'^<(\w+) line \d+, col \d+ to line \d+, col \d+ of module Router>: (\d+):(\d+)', re.M)
+
+
+def run_coverage(work):
+    """TLC -coverage on the quick configuration: every action of Router.tla the properties rest on must have been taken."""
+    rc, out = vlib.tlc(work, 'Router', cfg='MC_Rtr_q.cfg', workers=vlib.NCPU, timeout=900, name='cov_rtr', extra=['-coverage', '1'])
+    taken = {}
+    for name, distinct, gen in COV_RE.findall(out):
+        if name not in ('Init', 'Next', 'Next0'):
+            taken[name] = max(taken.get(name, 0), int(gen))
+    # disjuncts TLC cannot name (quantified over a state-dependent set, or guarded by EnvOK) are reported as
+    # "Next (line col line col)": resolved through the text of that line when it mentions exactly one action
+    src = open(os.path.join(vlib.SPEC, 'Router.tla')).read().split('\n')
+    for line, gen in re.findall(r'^<Next line \d+, col \d+ to line \d+, col \d+ of module Router \((\d+) \d+ \d+ \d+\)>: \d+:(\d+)', out, re.M):
+        names = [a for a in REQUIRED + ['AppSend', 'AppRecv', 'Arrive', 'CloseSock'] if re.search(r'\b%s\b' % a, src[int(line) - 1])]
+        if len(names) == 1:
+            taken[names[0]] = max(taken.get(names[0], 0), int(gen))
+    never = [a for a in REQUIRED if taken.get(a, 0) == 0]
+    if never:
+        print('MODEL-NOTE: vacuity: actions %s are never taken in MC_Rtr_q.cfg' % never)
+    return dict(action_states_generated=taken, required_actions=REQUIRED, required_actions_never_taken=never)
+
+
 CONF = {}
 
 
@@ -83,6 +108,7 @@ def check(pid, tier):
     try:
         known = vlib.load_known()
         states, trans, mcdetail, sims = run_model(w, pid, tier, seed)
+        coverage = run_coverage(w) if tier == 'thorough' else None
         binary = vlib.build_test(w, './drive/', w.path('drive.test'))
         runs, res = run_router(w, pid, tier, seed, binary)
         viol, kf = tunnel_check.judge(pid, res, known)
@@ -104,7 +130,7 @@ def check(pid, tier):
         cov = dict(states=states + sims, transitions=trans, traces_validated_against_impl=res['validated'],
                    samples=[tunnel_check.sample_of(r) for r in runs[:2]], evaluations=len(runs), distinct_nontrivial=distinct,
                    rule='one evaluation = one schedule executed against the real knx.Router (scaled real time) and validated by TLC against the RouterObs observers',
-                   model_checking=mcdetail, spec_x_observer_states=sims, trace_events=res['events'], spec_drift=notes, conformance=dict(CONF), tlc_generated_behaviours=CONF.get('behaviours_generated', 0),
+                   model_checking=mcdetail, action_coverage=coverage, spec_x_observer_states=sims, trace_events=res['events'], spec_drift=notes, conformance=dict(CONF), tlc_generated_behaviours=CONF.get('behaviours_generated', 0),
                    known_findings={t: len(b) for t, b in kf.items()}, exhaustive=False)
         vlib.write_evidence(pid, tier, 'model_checking', cov, ASSUME[pid], time.time() - t0, len(viol))
         print('%s %s: %d schedules on the real router client (%d TLC-generated), %d trace events, model: %d states; '
